@@ -69,7 +69,7 @@ PROPS = {
     note=E1_NOTE,
     technique=E1_TECH,
     e1=[dict(tu="c06_broadcast.cpp"), dict(tu="c06b_broadcast_to.cpp"), dict(tu="c07_outer_misc.cpp"), dict(tu="c06c_bcastview.cpp"), dict(tu="c07b_bcast.cpp"), dict(tu="c06c_bcastview_rt.cpp"), dict(tu="c07b_bcast_rt.cpp")],
-    e2=[dict(rule="R-PARAMUSE"), dict(rule="R-CONSTBRANCH", anchors=True), dict(rule="R-MAYBE.broadcast")],
+    e2=[dict(rule="R-PARAMUSE"), dict(rule="R-CONSTBRANCH", anchors=True), dict(rule="R-MAYBE.broadcast"), dict(rule="R-STICKYFAIL")],
     rule=E1_RULE,
     explanation="soundness and completeness are stated per first incompatible aligned axis (nested case split with the call inside each case).",
     not_decided="broadcast_to/broadcast_arrays element law, associativity beyond the fold structure, dynamic/clipped containers",
@@ -81,7 +81,7 @@ PROPS = {
     note=E1_NOTE + " " + E2_NOTE,
     technique=E1_TECH + " + CFG typestate/dominance rules (test-before-dereference, zero-guarded division) on instantiations",
     e1=[dict(tu="c06_broadcast.cpp"), dict(tu="c03_rearrange.cpp"), dict(tu="c03b_dynamic.cpp"), dict(tu="c15_args.cpp"), dict(tu="c06b_broadcast_to.cpp"), dict(tu="c04b_concat.cpp"), dict(tu="c15b_pad_matmul.cpp"), dict(tu="c03f_moveaxis_multi.cpp"), dict(tu="c15c_invalid_views.cpp")],
-    e2=[dict(rule="R-MAYBE-DIV")],
+    e2=[dict(rule="R-MAYBE-DIV"), dict(rule="R-STICKYFAIL")],
     rule=E1_RULE + "; E2: one instance per dereference of a maybe-typed expression / per integer division site in the instantiated lifting functions (drivers/maybe_inst.cpp)",
     explanation="value exactly when NumPy accepts, Nothing exactly when NumPy raises, for the listed operations; an empty optional is never dereferenced = every dereference is dominated by a truth test of the same expression (typestate rule on the CFG); no division by an unvalidated user-derived divisor.",
     not_decided="tile/repeat argument validity, matmul batch-axis mismatch (goes through a run-time-length split), 1-d x 1-d matmul (shape_matmul returns None without comparing the lengths), dynamic ranks, propagation through pipelines",
@@ -202,7 +202,7 @@ PROPS["C09"] = dict(
     technique="static: custom libTooling extractor + by-construction rule on type-level branches (argument order, unmodified result); " + E1_TECH + " for branch agreement of shape_squeeze",
     e1=[dict(tu="c03d_squeeze.cpp"), dict(tu="c06_broadcast.cpp", count_as="C06"), dict(tu="c01_index.cpp", count_as="C01"), dict(tu="c03b_dynamic.cpp", count_as="C03"), dict(tu="c18_isequal.cpp", count_as="C18")],
     e3=[dict(group="C09")],
-    e2=[dict(rule="R-CONSTBRANCH")],
+    e2=[dict(rule="R-CONSTBRANCH"), dict(rule="R-STICKYFAIL")],
     rule=E1_RULE + "; E2: one instance per resolve_optype<void, index::TAG_t, ...> specialisation that builds constants; distinct by (file, specialisation arguments)",
     explanation="A hand-written type-level computation, a swapped to_value argument or a post-adjusted constant (ct<at(result,i)+1>) is a structural deviation and is reported with the specialisation.",
     not_decided="branch-to-branch agreement inside one run-time function, Boost/STL/utl container independence beyond E1's kinds, gcc vs clang",
